@@ -68,9 +68,16 @@ impl Key {
     }
 
     pub fn to_rel_link_url(&self, relative_to: &str) -> String {
-        RelativePath::new(relative_to)
-            .relative(self.relative_path.to_string())
-            .to_string()
+        // the last segment of a key is a file name: relate the directories and append it,
+        // so that the note `a` seen from the directory `a/` is `../a`, not the empty url
+        let path = RelativePath::new(self.relative_path.as_str());
+        match (path.parent(), path.file_name()) {
+            (Some(parent), Some(name)) => RelativePath::new(relative_to)
+                .relative(parent)
+                .join(name)
+                .to_string(),
+            _ => RelativePath::new(relative_to).relative(path).to_string(),
+        }
     }
 
     pub fn to_library_url(&self) -> String {
